@@ -11,7 +11,6 @@ import (
 	"com.tuntun.rangers/node/src/core"
 	"com.tuntun.rangers/node/src/executor"
 	"com.tuntun.rangers/node/src/middleware"
-	"com.tuntun.rangers/node/src/middleware/db"
 	"com.tuntun.rangers/node/src/middleware/types"
 	"com.tuntun.rangers/node/src/service"
 	"com.tuntun.rangers/node/src/storage/account"
@@ -69,24 +68,20 @@ func boot(height uint64) {
 
 // nodeWorld: one trie database in memory, a sequence of AccountDBs over it.
 type nodeWorld struct {
-	Disk db.Database
 	TDB  account.AccountDatabase
 	ADB  *account.AccountDB
 	Root common.Hash
 }
 
 func newNodeWorld() *nodeWorld {
+	// the state database of the node's AccountDBManager: the consensus-side readers (consensus/access) open states
+	// by root hash through it, so the worlds of this harness must live there
 	w := &nodeWorld{}
-	md, err0 := db.NewMemDatabase()
-	if err0 != nil {
-		panic(err0)
-	}
-	w.Disk = md
-	w.TDB = account.NewDatabase(w.Disk)
-	adb, err := account.NewAccountDB(common.Hash{}, w.TDB)
+	adb, err := middleware.AccountDBManagerInstance.GetAccountDBByHash(common.Hash{})
 	if err != nil {
 		panic(err)
 	}
+	w.TDB = adb.Database()
 	w.ADB = adb
 	adb.AddERC20Binding(common.BLANCE_NAME, tokenContract, 3, 18)
 	adb.GetBalance(common.FeeAccount) // make the binding visible to the process-global cache
